@@ -9,9 +9,12 @@
    construct (Judge_Core.out_ok).  A block-level, unescaped code line that is a bare call is the
    UNBUFFERED form `- f(x)` in this property's cases: pug prints nothing for it.
    Known classes: 1 = F-C06-e (script element with a line feed in its body), 2 = F-C06-c (unbuffered bare
-   call prints its value). *)
+   call prints its value).
+   The case carries the tree AS THE DECODER SEES IT (Models/AstFields.v: every Tag with the `selfClosing` field
+   of the AST JSON); model and oracle work on the erased tree, the oracle only on templates pug accepts. *)
 From PV Require Export Run.Judge_Core.
 From PV Require Import Pug.Compile Run.Verdict Spec.Sem Spec.HtmlSer Tmpl.Lexer.
+From PV Require Export Models.AstFields.
 
 Definition nodes_of (c : caseC) : list pnode := Judge_Core.c_nodes c.
 
@@ -186,8 +189,40 @@ Definition judge_mixed (c : caseC) : nat :=
     | [] => v_unmodelled
     end.
 
-Definition judge (c : caseC) : nat :=
+Definition judge_c (c : caseC) : nat :=
   if forallb static (nodes_of c) then judge_static c else judge_mixed c.
+
+(* ---- the tree as the decoder sees it (Models/AstFields.v) ------------------------------------------------ *)
+(* a case carries the decoded tree: every Tag with the `selfClosing` field of the AST JSON the engine was
+   given.  M and S work on the erased tree (C06_ast_flag_erased); S has a say only on templates pug accepts
+   (sc_dom) *)
+Record case06 := {
+  k_tree : list tnode;
+  k_datas : list dval;
+  k_funcs : list bytes;
+  k_prod : obsm;
+  k_debug : option obsm;
+}.
+Definition case_of (k : case06) : caseC :=
+  Judge_Core.Build_caseC (map erase (k_tree k)) (k_datas k) (k_funcs k) (k_prod k) (k_debug k).
+
+(* outside pug's domain (an element that is not void, marked self-closing, with content pug rejects): no
+   prescription, the case is counted as unmodelled when the engine does what the model of the code says,
+   drift otherwise *)
+Fixpoint zip_disagree (c : caseC) (ds : list dval) (rs : list (nat * bytes)) : bool :=
+  match ds, rs with
+  | d :: ds', r :: rs' =>
+    Nat.eqb (agree_code (o_loaded (c_prod c)) r (model_out false c d)) 1 || zip_disagree c ds' rs'
+  | [], [] => false
+  | _, _ => true
+  end.
+Definition judge_off (c : caseC) : nat :=
+  if o_loaded (c_prod c) then
+    if zip_disagree c (c_datas c) (o_res (c_prod c)) then v_drift else v_unmodelled
+  else match model_program false c with Some _ => v_drift | None => v_unmodelled end.
+
+Definition judge (k : case06) : nat :=
+  if forallb sc_dom (k_tree k) then judge_c (case_of k) else judge_off (case_of k).
 
 (* ---- direct stream: template SOURCE TEXT through the real lexer/parser/executor (harness C06L) -------- *)
 (* the source consists of text and of actions that are one literal; what the engine prints must be what
